@@ -32,6 +32,7 @@ type travCase struct {
 	FailAt  int      `json:"fail_at"` // -1 = nobody fails
 	Rounds  int      `json:"rounds"`
 	Collect bool     `json:"collect"` // CollectInDependencyOrder (results compared) instead of InDependencyOrder
+	Par     int      `json:"par"`     // > 1: that many walks of the SAME *types.Project (and the same option values) at once
 }
 
 type travOut struct {
@@ -108,139 +109,165 @@ func runTravCase(job raceJob) {
 		if c.Reverse {
 			opts = append(opts, graph.InReverseOrder)
 		}
-		var mu sync.Mutex
-		closed := false
-		visits := make([]int, c.N)
-		finished := make([]bool, c.N)
-		running, maxRun := 0, 0
-		bad := ""
-		delay := make([]int, c.N)
-		for v := range delay {
-			delay[v] = rng.Intn(4)
+		par := c.Par
+		if par < 1 {
+			par = 1
 		}
-		visitor := func(_ context.Context, name string, _ types.ServiceConfig) (string, error) {
-			v, _ := strconv.Atoi(name[1:])
-			mu.Lock()
-			if !closed {
-				visits[v]++
-				running++
-				if running > maxRun {
-					maxRun = running
-				}
-				wait := deps[v]
-				if c.Reverse {
-					wait = rdeps[v]
-				}
-				for _, d := range wait {
-					if want[d] && !finished[d] && bad == "" {
-						bad = fmt.Sprintf("%s visited before %s was done", name, svcName(d))
+		var pmu sync.Mutex // guards out / problem() between the walks of one round
+		var wg sync.WaitGroup
+		stuck := false
+		delays := make([][]int, par)
+		for k := range delays {
+			delays[k] = make([]int, c.N)
+			for v := range delays[k] {
+				delays[k][v] = rng.Intn(4)
+			}
+		}
+		oneWalk := func(k int) {
+			defer wg.Done()
+			var mu sync.Mutex
+			closed := false
+			visits := make([]int, c.N)
+			finished := make([]bool, c.N)
+			running, maxRun := 0, 0
+			bad := ""
+			delay := delays[k]
+			visitor := func(_ context.Context, name string, _ types.ServiceConfig) (string, error) {
+				v, _ := strconv.Atoi(name[1:])
+				mu.Lock()
+				if !closed {
+					visits[v]++
+					running++
+					if running > maxRun {
+						maxRun = running
+					}
+					wait := deps[v]
+					if c.Reverse {
+						wait = rdeps[v]
+					}
+					for _, d := range wait {
+						if want[d] && !finished[d] && bad == "" {
+							bad = fmt.Sprintf("%s visited before %s was done", name, svcName(d))
+						}
 					}
 				}
+				mu.Unlock()
+				switch delay[v] {
+				case 0:
+					runtime.Gosched()
+				case 1:
+					time.Sleep(50 * time.Microsecond)
+				default:
+					time.Sleep(time.Duration(100+100*delay[v]) * time.Microsecond)
+				}
+				mu.Lock()
+				if !closed {
+					running--
+					finished[v] = true
+				}
+				mu.Unlock()
+				if v == c.FailAt {
+					return "", fmt.Errorf("visitor failed on %s", name)
+				}
+				return "visited " + name, nil
 			}
-			mu.Unlock()
-			switch delay[v] {
-			case 0:
-				runtime.Gosched()
-			case 1:
-				time.Sleep(50 * time.Microsecond)
-			default:
-				time.Sleep(time.Duration(100+100*delay[v]) * time.Microsecond)
+			type res struct {
+				m   map[string]string
+				err error
 			}
-			mu.Lock()
-			if !closed {
-				running--
-				finished[v] = true
-			}
-			mu.Unlock()
-			if v == c.FailAt {
-				return "", fmt.Errorf("visitor failed on %s", name)
-			}
-			return "visited " + name, nil
-		}
-		type res struct {
-			m   map[string]string
-			err error
-		}
-		ch := make(chan res, 1)
-		go func() {
-			if c.Collect {
-				m, err := graph.CollectInDependencyOrder(context.Background(), p, visitor, opts...)
-				ch <- res{m, err}
+			ch := make(chan res, 1)
+			go func() {
+				if c.Collect {
+					m, err := graph.CollectInDependencyOrder(context.Background(), p, visitor, opts...)
+					ch <- res{m, err}
+					return
+				}
+				err := graph.InDependencyOrder(context.Background(), p, func(ctx context.Context, name string, s types.ServiceConfig) error {
+					_, err := visitor(ctx, name, s)
+					return err
+				}, opts...)
+				ch <- res{nil, err}
+			}()
+			var r res
+			select {
+			case r = <-ch:
+			case <-time.After(freeRunWatchdog):
+				pmu.Lock()
+				problem("deadlock: the walk did not return (round %d)", round)
+				stuck = true
+				pmu.Unlock()
+				mu.Lock()
+				closed = true
+				mu.Unlock()
 				return
 			}
-			err := graph.InDependencyOrder(context.Background(), p, func(ctx context.Context, name string, s types.ServiceConfig) error {
-				_, err := visitor(ctx, name, s)
-				return err
-			}, opts...)
-			ch <- res{nil, err}
-		}()
-		var r res
-		select {
-		case r = <-ch:
-		case <-time.After(freeRunWatchdog):
-			problem("deadlock: the walk did not return (round %d)", round)
+			pmu.Lock()
+			defer pmu.Unlock()
 			mu.Lock()
 			closed = true
-			mu.Unlock()
-			round = c.Rounds
-			continue
-		}
-		mu.Lock()
-		closed = true
-		out.Walks++
-		failing := c.FailAt >= 0 && c.FailAt < c.N && want[c.FailAt]
-		if failing {
-			if r.err == nil || r.err.Error() != "visitor failed on "+svcName(c.FailAt) {
-				problem("wrong-error: visitor of %s failed, the walk returned %v", svcName(c.FailAt), r.err)
-			}
-		} else {
-			if r.err != nil {
-				problem("wrong-error: nobody failed, the walk returned %v", r.err)
-			}
-			for v := 0; v < c.N; v++ {
-				exp := 0
-				if want[v] {
-					exp = 1
-					out.Visits++
-				} else {
-					out.Skipped++
+			out.Walks++
+			failing := c.FailAt >= 0 && c.FailAt < c.N && want[c.FailAt]
+			if failing {
+				if r.err == nil || r.err.Error() != "visitor failed on "+svcName(c.FailAt) {
+					problem("wrong-error: visitor of %s failed, the walk returned %v", svcName(c.FailAt), r.err)
 				}
-				if visits[v] != exp {
-					problem("count: %s visited %d times, expected %d", svcName(v), visits[v], exp)
-				}
-			}
-			if c.Collect {
-				var keys []string
-				for k := range r.m {
-					keys = append(keys, k)
-				}
-				sort.Strings(keys)
-				if len(r.m) != c.N {
-					problem("results: %d entries for %d services: %v", len(r.m), c.N, keys)
+			} else {
+				if r.err != nil {
+					problem("wrong-error: nobody failed, the walk returned %v", r.err)
 				}
 				for v := 0; v < c.N; v++ {
-					exp := ""
+					exp := 0
 					if want[v] {
-						exp = "visited " + svcName(v)
+						exp = 1
+						out.Visits++
+					} else {
+						out.Skipped++
 					}
-					if got, ok := r.m[svcName(v)]; !ok || got != exp {
-						problem("results: entry of %s is %q (present %v), the visitor returned %q", svcName(v), got, ok, exp)
+					if visits[v] != exp {
+						problem("count: %s visited %d times, expected %d", svcName(v), visits[v], exp)
 					}
 				}
+				if c.Collect {
+					var keys []string
+					for k := range r.m {
+						keys = append(keys, k)
+					}
+					sort.Strings(keys)
+					if len(r.m) != c.N {
+						problem("results: %d entries for %d services: %v", len(r.m), c.N, keys)
+					}
+					for v := 0; v < c.N; v++ {
+						exp := ""
+						if want[v] {
+							exp = "visited " + svcName(v)
+						}
+						if got, ok := r.m[svcName(v)]; !ok || got != exp {
+							problem("results: entry of %s is %q (present %v), the visitor returned %q", svcName(v), got, ok, exp)
+						}
+					}
+				}
+				if c.Limit > 0 && maxRun > c.Limit {
+					problem("over-limit: %d visitors ran at once under WithMaxConcurrency(%d)", maxRun, c.Limit)
+				}
 			}
-			if c.Limit > 0 && maxRun > c.Limit {
-				problem("over-limit: %d visitors ran at once under WithMaxConcurrency(%d)", maxRun, c.Limit)
+			for v := 0; v < c.N; v++ {
+				if visits[v] > 1 {
+					problem("count: %s visited %d times", svcName(v), visits[v])
+				}
 			}
-		}
-		for v := 0; v < c.N; v++ {
-			if visits[v] > 1 {
-				problem("count: %s visited %d times", svcName(v), visits[v])
+			if bad != "" {
+				problem("order: %s", bad)
 			}
+			mu.Unlock()
 		}
-		if bad != "" {
-			problem("order: %s", bad)
+		for k := 0; k < par; k++ {
+			wg.Add(1)
+			go oneWalk(k)
 		}
-		mu.Unlock()
+		wg.Wait()
+		if stuck {
+			break
+		}
 	}
 	b, _ := json.Marshal(out)
 	os.Stdout.Write(b)
